@@ -285,11 +285,16 @@ func pkgOfHarness(h string) string {
 }
 
 // confirms reports whether the native result reproduces the engine outcome.
-func confirms(engineOutcome string, nr NativeResult) bool {
+func confirms(engineOutcome string, nr NativeResult, pkg string) bool {
 	switch engineOutcome {
 	case "violation":
 		return nr.Status == "assert"
 	case "panic":
+		if (pkg == "main" || pkg == "github.com/crillab/gophersat") && nr.Status == "assert" {
+			// the command is replayed as a separate process: a panic in it reaches the
+			// harness as a non-zero exit status, which its assertions reject
+			return true
+		}
 		return nr.Status == "panic"
 	case "fuel":
 		return nr.Status == "timeout"
